@@ -142,3 +142,35 @@ def raw_to_cumulants(cx):
         return z3.ForAll([q], z3.Implies(z3.And(1 <= q, q <= N.t), z3.And(z3.Select(rdom, q), z3.Select(rarr, q) == KAP(q))))
     cx.ensures(post)
     cx.lemmas.append(('L-cumulants: the recursion defines the cumulants k! [t^k] log E[e^{tX}] (decided per order by the C11 symbolic-run)', None))
+
+
+SETTINGS = ['transform_categoricals', 'cond2arithm', 'disable_type_inference', 'type_fp_iterations', 'numeric_roots', 'numeric_croots', 'numeric_eps',
+            'trivial_guard', 'exact_func_moments']
+
+
+@contract('cli/argument_parser.py', '_set_settings', ['C17', 'C20'])
+def set_settings(cx):
+    """every command-line option reaches exactly the setting of the same name"""
+    vals = {n: cx.int('arg_' + n) for n in SETTINGS}          # option values as opaque tokens (Int): only their identity matters
+    cx.param(args=cx.obj('Namespace', **vals))
+    cx.ensures(lambda st, r: z3.And(*[st[f'settings.{n}'].t == vals[n].t for n in SETTINGS]))
+    cx.note('frame: the function contains only these nine stores (any other process-global write is reported by the C20 frame scan)')
+
+
+@contract('cli/common.py', 'get_moment_given_termination', ['C09'])
+def moment_given_termination(cx):
+    """E[M | terminated] sequence = E[M * [not guard]] / E[[not guard]]  with [not guard] the indicator polynomial of the negated ORIGINAL loop guard"""
+    NEG = z3.Function('negated_guard_indicator', REF, R); MP = z3.Function('moment_of_poly', R, R); EX = z3.Function('is_exact_of_poly', R, B)
+    monom = cx.real('monom'); guard = cx.ref('original_loop_guard')
+    prog = cx.obj('Program', original_loop_guard=guard)
+    cx.param(monom=monom, solvers=cx.ref('solvers'), rec_builder=cx.ref('rb'), cli_args=cx.ref('args'), program=prog)
+
+    def not_(ex, st, r, a, kw):
+        return V('ref', ex.fresh(REF, 'not_guard'), of=a[0])
+    cx.call('Not', not_)
+    cx.call('to_arithm', lambda ex, st, r, a, kw: VR(NEG(r.x['of'].t)), trusted='Not(guard).to_arithm = [guard does not hold] (contracts/condition.py)')
+    cx.call('get_moment_poly', lambda ex, st, r, a, kw: VTuple(VR(MP(toreal(a[0]))), VB(EX(toreal(a[0])))), trusted='get_moment_poly: closed form of E(poly) by linearity (C01)')
+    cx.call('sympy_sympify', lambda ex, st, r, a, kw: a[0])
+    g = NEG(guard.t)
+    cx.requires(MP(g) != 0)
+    cx.ensures(lambda st, r: z3.And(toreal(r.t[0]) == MP(monom.t * g) / MP(g), truthy(r.t[1]) == z3.And(EX(g), EX(monom.t * g))))
